@@ -12,6 +12,14 @@
      secular-ga.c:623  after the cleanup (the driver itself sets the flag at :608 when there are errors)
      secular-iteration.c:29 / :308 / :518   head of the worker loop
 
+   The numbers are the NAMES of the program points (the source lines when the model was written); the check
+   (checks/C18.py, poll_sites) matches them to the reads of the flag in the snapshot in source order and reports
+   a different number of reads.  At /repo c42b0d20 the reads of secular-ga.c are at lines 78, 441, 500, 553, 576,
+   593, 642 and 673, the driver's own write at 658.  The statements added since (over_max := false, 187fa8c9, and
+   again := true / approximated := false for every root, f467541d) are part of the set-up before the first read
+   (DStart below); best_approx set by a Jacobi-Aberth packet that stops at once (6b94c0b6) is the oracle value read at DBest (the
+   packet step itself stays atomic); mps_improve leaving its loop when nothing is improvable (064029f1) is the oracle of DImprove.
+
    Numerics are not modelled: every data dependent decision is read from the oracle value [o] that comes
    with the step (any natural number; the step is total in it).  Atomic in the model (they contain no read
    of the flag in these two files): starting points + the preliminary Aberth packet, cluster analysis,
